@@ -23,7 +23,7 @@ type notePath struct {
 	CtrSets     []Effect // mapset on activeNotesCounter[..]
 	OtherWrites []Effect // any other non-local store/mapset/mapdel
 	HeldKnown   bool
-	Held        bool   // counter guard says the pitch is already held (NoteOn) / last holder (NoteOff)
+	Held        bool // counter guard says the pitch is already held (NoteOn) / last holder (NoteOff)
 	GuardDesc   string
 	TrackerHit  *bool // result of the comma-ok tracker lookup on this path, if tested
 	Panics      bool
